@@ -127,3 +127,21 @@ Proof.
   split; [repeat constructor|]. split; [repeat constructor|]. split; vm_compute; reflexivity.
 Qed.
 Print Assumptions C05_graph_roundtrip_refuted.
+
+(* ---- the hypotheses are satisfiable: a model library (Instance.v: Quote/Unquote as Go does on ASCII - compared with Go by
+   the check - and decimal codecs for time and float) satisfies oracle_laws and accept_laws; instantiated, the round trip
+   holds without any hypothesis about a library *)
+From BWValues Require Import Instance.
+
+Theorem C05_laws_satisfiable : oracle_laws model_library /\ accept_laws model_library.
+Proof. split; [exact model_library_laws | exact model_library_accept_laws]. Qed.
+Print Assumptions C05_laws_satisfiable.
+
+Theorem C05_triple_roundtrip_model_library : forall t, dom_triple t = true ->
+  parse_triple model_library (print_triple model_library t) = Ok t.
+Proof. exact (triple_roundtrip model_library model_library_laws). Qed.
+Print Assumptions C05_triple_roundtrip_model_library.
+
+Example C05_model_library_example :
+  print_pred model_library (mkPred (lit "a""@[b\	é") None) = lit """a\""@[b\\\t\xc3\xa9""@[]".
+Proof. vm_compute. reflexivity. Qed.
